@@ -191,6 +191,12 @@ func runC14(w *World, pi interface{}) {
 			}
 		}
 	}
+	// a client that leaves is not held by the connection: closing its own end returns
+	for k, peer := range peers {
+		if peer != nil && peer.CloseBlocked {
+			w.Violate("C14.client-close-blocked", sig(lastInputClass(h, k)), "connection %d: the client's Close of its %s connection had not returned 30 s later (established: %v)\n%s", k, peer.Kind, established[k], h.Dump(60))
+		}
+	}
 	// 3. the server end of every failed connection is closed, and nothing keeps serving it
 	for k, peer := range peers {
 		if peer == nil || established[k] || peer.Link == nil || waiting[k] {
